@@ -565,6 +565,11 @@ func (e *c15Env) make(class, tag string, deps map[string]*c15Member, accept func
 	net := e.L.Net
 	thr1 := common.NewThresholdScript(1)
 	var in *common.Input
+	xkN, xkI := 0, 0 // "Xk<n><i>": transfer with n outputs whose output i has a one-time key pre-locked for another transaction
+	if strings.HasPrefix(class, "Xk") {
+		xkN, xkI = int(class[2]-'0'), int(class[3]-'0')
+		in = e.take(&e.xIn, class)
+	}
 	switch class {
 	case "T1", "C", "U", "Xg", "t", "t3":
 		in = e.take(&e.xIn, class)
@@ -685,6 +690,19 @@ func (e *c15Env) make(class, tag string, deps map[string]*c15Member, accept func
 			tx.Extra = saltB
 			return tx
 		}
+		if xkN > 0 {
+			tx := common.NewTransactionV5(common.XINAssetId)
+			tx.AddInput(in.Hash, in.Index)
+			for k := 0; k < xkN; k++ {
+				amt := "1"
+				if k == 0 {
+					amt = fmt.Sprint(10 - (xkN - 1))
+				}
+				tx.AddScriptOutput(e.acct(), thr1, common.NewIntegerFromString(amt), seed(fmt.Sprintf("%s:o%d", class, k)))
+			}
+			tx.Extra = saltB
+			return tx
+		}
 		panic("c15: unknown class " + class)
 	}
 	var tx *common.Transaction
@@ -714,6 +732,13 @@ func (e *c15Env) make(class, tag string, deps map[string]*c15Member, accept func
 	}
 	m := &c15Member{Class: class, Tx: ver, H: ver.PayloadHash()}
 	e.bodies[m.H] = ver
+	if xkN > 0 {
+		// another transaction took the one-time key of output xkI beforehand
+		other := fixc.Hash("c15-owner-of-" + class)
+		if err := e.L.Store.LockGhostKeys([]*crypto.Key{ver.Outputs[xkI].Keys[0]}, other, false); err != nil {
+			panic(err)
+		}
+	}
 	return m
 }
 
@@ -1117,6 +1142,17 @@ func c15Selections(classes []string, max int) [][]string {
 
 func c15PartBatches(c *verifmc.Check) {
 	sels := c15Selections(c15BatchClasses, 3)
+	// members with 2..3 outputs whose output i (every i, not only the last) has
+	// its one-time key locked by another transaction: alone, as 2nd member, as
+	// 1st member, and in the middle of three
+	extra := 0
+	for _, v := range []string{"Xk20", "Xk21", "Xk30", "Xk31", "Xk32"} {
+		for _, sel := range [][]string{{v}, {"T1", v}, {v, "T1"}, {"D", v, "T1"}, {"T2", "D", v}} {
+			sels = append(sels, sel)
+			extra++
+		}
+	}
+	c.Set("batch_selections_prelocked_output_key", extra)
 	c.Set("batch_selections", len(sels))
 	c.ParallelN(len(sels), "batches", func(_, i int) {
 		sel := sels[i]
@@ -1438,7 +1474,7 @@ func c15PartCut(c *verifmc.Check, t *testing.T) {
 	c.ParallelN(len(disk), "cut", func(_, i int) { run(i, disk[i], true) })
 	c.Set("cuts_fired", fired.Load())
 	c.Set("max_commits_seen_in_one_writesnapshot", maxCommits.Load())
-	c.Require(fired.Load() >= int64(len(mem)+len(disk))/3, "commit seam fired only %d times over %d scenarios", fired.Load(), len(mem)+len(disk))
+	c.Require(c.Expired("cut guard") || fired.Load() >= int64(len(mem)+len(disk))/3, "commit seam fired only %d times over %d scenarios", fired.Load(), len(mem)+len(disk))
 }
 
 // ---------------------------------------------------------------- part 5: re-finalization matrix
@@ -1628,6 +1664,184 @@ func c15PartTooBig(c *verifmc.Check, t *testing.T) {
 	}
 }
 
+// ---------------------------------------------------------------- part 7: overlapping WriteSnapshot calls (E3)
+
+type c15CCall struct {
+	name    string
+	topo    *common.SnapshotWithTopologicalOrder
+	signers []crypto.Hash
+	err     error
+	pv      any
+}
+
+// prepared snapshot of chain slot for ms with explicit topology order
+func (e *c15Env) prepared(slot int, ms []*c15Member, order uint64) *c15CCall {
+	node := e.L.Net.NodeIds[1+slot]
+	head, err := e.L.Store.ReadRound(node)
+	if err != nil || head == nil {
+		panic(fmt.Errorf("c15 head round: %v", err))
+	}
+	sorted := append([]*c15Member{}, ms...)
+	sort.Slice(sorted, func(i, j int) bool { return bytes.Compare(sorted[i].H[:], sorted[j].H[:]) < 0 })
+	snap := &common.Snapshot{Version: common.SnapshotVersionCommonEncoding, NodeId: node, RoundNumber: head.Number, References: head.References,
+		Timestamp: e.L.Net.Epoch + uint64(2*time.Hour) + order*uint64(time.Second)}
+	for _, m := range sorted {
+		snap.AddTransaction(m.H)
+	}
+	snap.Hash = snap.PayloadHash()
+	snap.Signature = &crypto.CosiSignature{Mask: 1}
+	return &c15CCall{name: fmt.Sprintf("chain%d[%s]", slot+1, strings.Join(c15Classes(sorted), "<")),
+		topo: &common.SnapshotWithTopologicalOrder{Snapshot: snap, TopologicalOrder: order}, signers: []crypto.Hash{node, e.L.Net.NodeIds[0]}}
+}
+
+// c15Concurrent: WriteSnapshot calls of different chains that share a
+// not-yet-final transaction run as threads; every interleaving up to the
+// preemption bound (scheduling points: the store mutex, Badger begin/commit) is
+// executed on a fresh ledger. Oracle: the final dump equals the dump the
+// reference model gives for SOME sequential order of the calls that returned
+// nil (first finalization wins, outputs and asset total applied once).
+func c15Concurrent(c *verifmc.Check) {
+	badger.VerifHook = func(kind, dir string, writes int) error {
+		verifmc.Point("txn." + kind)
+		return nil
+	}
+	pool := []string{"D", "T1", "T2"}
+	type scen struct {
+		name string
+		a, b []int // pool indexes per thread
+	}
+	scens := []scen{
+		{"same deposit on two chains", []int{0}, []int{0}},
+		{"same transfer on two chains", []int{1}, []int{1}},
+		{"shared deposit + one fresh member each", []int{0, 1}, []int{0, 2}},
+		{"shared transfer + one fresh member each", []int{1, 0}, []int{1, 2}},
+	}
+	bound := verifmc.Pick(c, 2, 3)
+	var mu sync.Mutex
+	var execs int64
+	c.ParallelN(len(scens), "C15 concurrent scenarios", func(_, i int) {
+		sc := scens[i]
+		ex := &verifmc.Explorer{C: c, Bound: bound, Name: "concurrent:" + sc.name}
+		ex.Body = func(s *verifmc.Sched, report func(key, desc string)) string {
+			e := c15BuildSel("", pool, false)
+			defer e.L.Close()
+			pick := func(ix []int) []*c15Member {
+				var ms []*c15Member
+				for _, k := range ix {
+					ms = append(ms, e.pool[k])
+				}
+				return ms
+			}
+			n := e.L.Store.VerifNextTopology()
+			calls := []*c15CCall{e.prepared(0, pick(sc.a), n), e.prepared(1, pick(sc.b), n+1)}
+			pre := e.base
+			for ti, cl := range calls {
+				cl := cl
+				s.Go(fmt.Sprint("t", ti), func() {
+					cl.pv = verifmc.Catch(func() { cl.err = e.L.Store.WriteSnapshot(cl.topo, cl.signers) })
+				})
+			}
+			for ti, p := range s.RunAll() {
+				if p != nil {
+					report("concurrent:thread-panic", fmt.Sprintf("scenario %q thread %d: %v", sc.name, ti, p))
+				}
+			}
+			if s.Deadlock {
+				report("concurrent:deadlock", strings.Join(s.Trace, " "))
+				return "deadlock"
+			}
+			post := e.L.Store.VerifDump("")
+			var ok []*c15CCall
+			var pat []string
+			for _, cl := range calls {
+				good := cl.err == nil && cl.pv == nil
+				pat = append(pat, fmt.Sprintf("%s=%v", cl.name, good))
+				if good {
+					ok = append(ok, cl)
+				} else {
+					c.Stricter("overlapping WriteSnapshot rejected: " + fmt.Sprint(cl.err, cl.pv))
+				}
+			}
+			// admissible final states: every sequential order of the successful calls
+			var orders [][]*c15CCall
+			switch len(ok) {
+			case 0:
+				orders = [][]*c15CCall{{}}
+			case 1:
+				orders = [][]*c15CCall{ok}
+			default:
+				orders = [][]*c15CCall{{ok[0], ok[1]}, {ok[1], ok[0]}}
+			}
+			best := ""
+			var bestDiff []string
+			for _, ord := range orders {
+				cur := make(map[string]string, len(pre)+64)
+				for k, v := range pre {
+					cur[k] = v
+				}
+				var names []string
+				possible := true
+				for _, cl := range ord {
+					x := c15Expect(cur, cl.topo, cl.signers, e.bodies)
+					if x.fail != "" {
+						possible = false
+						break
+					}
+					for k, v := range x.writes {
+						cur[k] = v
+					}
+					names = append(names, cl.name)
+				}
+				if !possible {
+					continue
+				}
+				var diff []string
+				for k, v := range cur {
+					if w, in := post[k]; !in || w != v {
+						diff = append(diff, k)
+					}
+				}
+				for k := range post {
+					if _, in := cur[k]; !in {
+						diff = append(diff, k)
+					}
+				}
+				if len(diff) == 0 {
+					return strings.Join(pat, " ") + " => as sequential " + strings.Join(names, " then ")
+				}
+				if best == "" || len(diff) < len(bestDiff) {
+					best, bestDiff = strings.Join(names, " then "), diff
+				}
+			}
+			cnt := map[string]int{}
+			for _, k := range bestDiff {
+				cnt[c15PrefixOf(k)]++
+			}
+			pf := verifmc.SortedKeys(cnt)
+			report("concurrent:final-state-not-sequential:"+strings.Join(pf, "+"), fmt.Sprintf("scenario %q [%s] schedule %s: the final snapshot DB equals no sequential order of the successful calls; closest order (%s) differs in %v", sc.name, strings.Join(pat, " "), strings.Join(s.Trace, ""), best, cnt))
+			return strings.Join(pat, " ") + " => NOT sequential"
+		}
+		ex.Run()
+		mu.Lock()
+		execs += ex.Executions
+		mu.Unlock()
+	})
+	c.Set("concurrent_scenarios", len(scens))
+	c.Set("concurrent_executions", execs)
+	c.Set("preemption_bound", bound)
+	c.Require(verifmc.FreeRunning() || c.Expired("concurrent guard") || execs >= 20, "vacuous concurrent part: %d executions", execs)
+}
+
+// TestMCRace_C15 is the separate free-running pass (go test -race) over the
+// bodies of the concurrent scenarios.
+func TestMCRace_C15(t *testing.T) {
+	c := verifmc.Start(t, "C15", "model_checking")
+	defer c.Finish()
+	defer func() { badger.VerifHook = nil }()
+	c15Concurrent(c)
+	verifmc.RacePassDone("C15")
+}
+
 // ---------------------------------------------------------------- test
 
 func TestMC_C15(t *testing.T) {
@@ -1669,6 +1883,8 @@ func TestMC_C15(t *testing.T) {
 	lap("refinalize")
 	c15PartTooBig(c, t)
 	lap("toobig")
+	c15Concurrent(c) // replaces the seam; the deferred reset above clears it
+	lap("concurrent")
 
 	// vacuity guards (meaningless when the wall-clock cap cut the run short)
 	if c.Expired("vacuity guards") {
